@@ -544,19 +544,12 @@ def model_order_seen(ans):  # noqa
 def compare(case, obs, ans):
     """(K): list of differences between the implementation's observables and the model's answer"""
     diffs = []
-    if ans.get('crashed') and 'NotADirectoryError' in str(obs.get('outcome')):
-        return []
     if obs.get('outcome') != ans.get('outcome'):
         return ['outcome: impl %s model %s' % (obs.get('outcome'), ans.get('outcome'))]
     if ans.get('outcome') != 'ok':
         return diffs
     if ans.get('crashed'):
-        # os.rmdir on a symbolic link: the command dies there (open finding symlink-to-empty-dir); what the model
-        # computes after the `crash` event is not the code's, so only the way it ends is compared
-        if 'NotADirectoryError' in str(obs.get('outcome')):
-            return []
-        return ['the model says os.rmdir is called on a symbolic link and the command dies; the implementation ended: %s'
-                % obs.get('outcome')]
+        diffs.append('the model emitted a `crash` event (impossible since fix a5ed062: clean_runs_to_its_end)')
     if ans.get('oof'):
         diffs.append('model ran out of fuel')
     m_events = [e for e in ans['events'] if e[0] != 'cmd']
